@@ -102,6 +102,34 @@ Proof.
     cbn [negb] in E. exfalso. inversion E as [E']. revert E'. apply rep_atoms_nonempty.
 Qed.
 
+(* ---- timedeltas: compared with != by _diff_time (with or without truncate_datetime, since /repo 1c8f0f8),
+   hashed from their microseconds: equal hashes <-> nothing reported, for every option set; and DeepHash
+   raises on a timedelta exactly when a precision is in force (finding C12-timedelta-hash-TypeError) ---- *)
+Lemma ytd_text_inj u1 u2 : yh_text F (ATd u1) = yh_text F (ATd u2) <-> u1 = u2.
+Proof.
+  cbn [yh_text yh0 hatom0]. unfold prep_string. split.
+  - intros E. rewrite !lowif_app in E. do 2 apply app_inv_head in E.
+    rewrite !(lowc_lowif F (p_of_Z _)) in E by apply lowc_p_of_Z. apply p_of_Z_inj. exact E.
+  - intros ->. reflexivity.
+Qed.
+
+Theorem y_timedelta_hash_iff_diff u1 u2 p1 p2 :
+  (yh_atom H F (ATd u1) = yh_atom H F (ATd u2) <-> leafR udiff F (ATd u1) (ATd u2) p1 p2 = Ok []) /\
+  yh_err F (ATd u1) = match eff_sig F with Some _ => Some EType | None => None end.
+Proof.
+  split.
+  - unfold yh_atom.
+    assert (L : leafR udiff F (ATd u1) (ATd u2) p1 p2 =
+                Ok (if negb (Z.eqb u1 u2) then rep_atoms F KValue p1 p2 (ATd u1) (ATd u2) else [])).
+    { cbn [leafR]. unfold leaf_core. cbn [same_obj atom_ty ty_eqb is_nan andb]. rewrite !excluded_none. cbn [orb].
+      rewrite andb_false_r. cbn [dispatch]. unfold timeD. destruct (o_trunc F); reflexivity. }
+    rewrite L. split.
+    + intros E. apply H_inj in E. apply ytd_text_inj in E. subst u2. rewrite Z.eqb_refl. reflexivity.
+    + intros E. f_equal. apply ytd_text_inj. destruct (Z.eqb_spec u1 u2) as [Eq|Ne]; [exact Eq|].
+      cbn [negb] in E. exfalso. inversion E as [E']. revert E'. apply rep_atoms_nonempty.
+  - cbn [yh_err]. unfold hatom_err. destruct (eff_sig F); reflexivity.
+Qed.
+
 End Dt.
 
 (* what the theorem says in terms of the inputs: the two wall clocks, floored to the unit IN THEIR OWN
